@@ -259,17 +259,17 @@ Section Matchers.
     ma_prune : agree (sm_prune SM) (prune_of M) }.
 
   (** The files of the model of the code are, in some order, the declarative set. *)
-  Lemma files_spec : forall M SM L, models_agree M SM -> spec_files SM = Some L ->
-    exists L', files scandir M = (L', None) /\ Permutation L' L.
+  Lemma files_spec : forall M SM L, models_agree M SM -> spec_files O SM = Some L ->
+    exists L', files scandir O M = (L', None) /\ Permutation L' L.
   Proof.
     intros [dir abs cfg sel prune] [sdir sabs scfg ssel sprune] L [Hd Ha Hc Hs Hp] H.
     cbn [m_dir m_abs m_cfg sm_dir sm_abs sm_cfg sm_sel sm_prune] in *. subst sdir sabs scfg.
     unfold spec_files in H. cbn [sm_cfg sm_dir sm_abs sm_prune sm_sel] in H.
-    assert (exists G G', generate scandir cfg prune dir abs = (G', None) /\ Permutation G' G /\ strict_filter ssel G = Some L) as (G & G' & EG & PG & EF).
+    assert (exists G G', generate scandir O cfg prune dir abs = (G', None) /\ Permutation G' G /\ strict_filter ssel G = Some L) as (G & G' & EG & PG & EF).
     { destruct cfg as [|mn mx].
       - eexists. eexists. split; [reflexivity|]. split; [|exact H]. apply Permutation_map. apply scandir_perm.
-      - destruct (walk sprune mn mx dir [] abs 0) as [G|] eqn:EW; [|discriminate].
-        destruct (gen_recursive_spec scandir scandir_perm sprune (prune_of (FsModel dir abs (Rec mn mx) sel prune)) Hp mn mx dir abs G EW) as [G' [E P]].
+      - destruct (walk O sprune mn mx dir [] abs 0) as [G|] eqn:EW; [|discriminate].
+        destruct (gen_recursive_spec scandir scandir_perm O sprune (prune_of (FsModel dir abs (Rec mn mx) sel prune)) Hp mn mx dir abs G EW) as [G' [E P]].
         exists G, G'. split; [|split; [exact P | exact H]]. unfold generate. unfold prune_of in E. cbn [m_prune] in E. exact E. }
     destruct (strict_filter_perm ssel G G' (Permutation_sym PG) L EF) as [L' [EF' PL]].
     exists L'. split; [|apply Permutation_sym; exact PL].
@@ -335,21 +335,21 @@ Section Matchers.
     - (* FOr *) intros a IHa c IHc e b H. cbn [sem_fm eval_fm] in *.
       apply or_else_some in H as [[Ha Hc]|[Ha ->]]; rewrite (IHa _ _ Ha); [apply IHc; exact Hc | reflexivity].
     - (* SConst *) intros b M SM b' _ H. cbn in *. congruence.
-    - (* SEmpty *) intros M SM b MA H. cbn [sem_fsm eval_fsm] in *. destruct (spec_files SM) as [L|] eqn:EL; [|discriminate].
+    - (* SEmpty *) intros M SM b MA H. cbn [sem_fsm eval_fsm] in *. destruct (spec_files O SM) as [L|] eqn:EL; [|discriminate].
       destruct (files_spec M SM L MA EL) as [L' [EF P]]. rewrite EF. cbn [consume_all fst snd]. cbn in H. injection H as <-.
       f_equal. destruct L' as [|x L']; destruct L as [|y L]; try reflexivity;
         [apply Permutation_nil in P; discriminate | apply Permutation_sym, Permutation_nil in P; discriminate].
-    - (* SNumFiles *) intros op n M SM b MA H. cbn [sem_fsm eval_fsm] in *. destruct (spec_files SM) as [L|] eqn:EL; [|discriminate].
+    - (* SNumFiles *) intros op n M SM b MA H. cbn [sem_fsm eval_fsm] in *. destruct (spec_files O SM) as [L|] eqn:EL; [|discriminate].
       destruct (files_spec M SM L MA EL) as [L' [EF P]]. rewrite EF. cbn [consume_all fst snd]. cbn in H. injection H as <-.
       rewrite (Permutation_length P). reflexivity.
-    - (* SEvery *) intros f IH M SM b MA H. cbn [sem_fsm eval_fsm] in *. destruct (spec_files SM) as [L|] eqn:EL; [|discriminate].
+    - (* SEvery *) intros f IH M SM b MA H. cbn [sem_fsm eval_fsm] in *. destruct (spec_files O SM) as [L|] eqn:EL; [|discriminate].
       destruct (files_spec M SM L MA EL) as [L' [EF P]]. rewrite EF.
       apply (every_loop_strict (sem_fm O f) _ IH). eapply strict_forall_perm; [apply Permutation_sym; exact P | exact H].
-    - (* SAny *) intros f IH M SM b MA H. cbn [sem_fsm eval_fsm] in *. destruct (spec_files SM) as [L|] eqn:EL; [|discriminate].
+    - (* SAny *) intros f IH M SM b MA H. cbn [sem_fsm eval_fsm] in *. destruct (spec_files O SM) as [L|] eqn:EL; [|discriminate].
       destruct (files_spec M SM L MA EL) as [L' [EF P]]. rewrite EF.
       apply (any_loop_strict (sem_fm O f) _ IH). eapply strict_exists_perm; [apply Permutation_sym; exact P | exact H].
     - (* SMatches *) intros full fc IH M SM b MA H. cbn [sem_fsm] in H.
-      destruct (spec_files SM) as [L|] eqn:EL; [|discriminate].
+      destruct (spec_files O SM) as [L|] eqn:EL; [|discriminate].
       destruct (distinct_rels L) eqn:ED; cbn [negb] in H; [|discriminate].
       destruct (files_spec M SM L MA EL) as [L' [EF P]].
       pose proof (distinct_rels_perm _ _ (Permutation_sym P) ED) as ED'.
